@@ -20,13 +20,24 @@ from . import gen as G
 BACKENDS = ("obj", "np", "ak", "akraw", "sym")
 
 
+def _kwval(rng, g):
+    """Value for an imputed coordinate: zero (massless, on-axis) is a first-class case."""
+    r = rng.random()
+    if r < 0.12:
+        return 0.0
+    if r < 0.18:
+        return 0
+    return C.value(rng, g)
+
+
 def _spell(rng, g):
     return rng.choice(C.SYN[g]) if g in C.SYN else g
 
 
 def gen_case(seed, tier="quick"):
     rng = random.Random(seed)
-    be = rng.choice(("obj", "obj", "np", "np", "ak", "akraw", "sym"))
+    be = rng.choice(("obj", "obj", "np", "np", "ak", "ak", "akraw", "sym"))
+    as_record = be in ("ak", "akraw") and rng.random() < 0.3
     sys_ = C.SYSTEMS[rng.randrange(20)]
     dim = C.dim_of(sys_)
     gnames = C.names_of(sys_)
@@ -38,7 +49,7 @@ def gen_case(seed, tier="quick"):
         n = 1
         for s in shape:
             n *= s
-    if be == "ak" and rng.random() < 0.4:
+    if be == "ak" and rng.random() < 0.4 and not as_record:
         shape = ["jag"]
         n = 3
     hz = rng.random() < 0.15
@@ -74,32 +85,36 @@ def gen_case(seed, tier="quick"):
             lon_g = next((n for n in ("theta", "eta", "z") if n in g[5:]), None)
             lon_m = next((n for n in ("theta", "eta", "pz") if n in m[5:]), None)
             if dim < 3 and lon_g and rng.random() < 0.8:
-                v = C.value(rng, lon_g)
+                v = _kwval(rng, lon_g)
                 st["kwg"][lon_g] = v
                 st["kwm"][lon_m] = v
             tmp_g = "tau" if g.endswith("tau") else ("t" if g.endswith("t") and lon_g else None)
             tmp_m = "mass" if m.endswith("mass") else ("energy" if m.endswith("energy") else None)
             if dim < 4 and tmp_g and tmp_m and rng.random() < 0.8:
-                v = C.value(rng, tmp_g)
+                v = _kwval(rng, tmp_g)
                 st["kwg"][tmp_g] = v
                 st["kwm"][tmp_m] = v
             steps.append(st)
         elif k == "op":
-            name = rng.choice(("unit", "add", "subtract", "scale", "dot", "deltaphi", "rotateZ", "equal", "isclose", "neg2D", "to_Vector2D", "to_Vector3D", "to_Vector4D"))
+            name = rng.choice(("unit", "add", "subtract", "scale", "dot", "deltaphi", "rotateZ", "equal", "isclose", "neg2D", "to_Vector2D", "to_Vector3D", "to_Vector4D",
+                               "py:abs", "py:neg", "py:pow", "py:mul", "py:truediv", "py:eq", "np:absolute", "np:square", "np:sqrt", "np:cbrt", "np:power", "np:negative",
+                               "np:add", "np:subtract", "np:matmul"))
             st = {"s": "op", "name": name}
-            if name in ("scale", "rotateZ"):
-                st["arg"] = round(rng.uniform(-2, 2), 3)
+            if name in ("scale", "rotateZ", "py:mul", "py:truediv"):
+                st["arg"] = round(rng.uniform(-2, 2), 3) or 1.5
+            if name in ("py:pow", "np:power"):
+                st["arg"] = rng.choice((2, 3, 0.5, 1.5))
             if name in ("to_Vector3D", "to_Vector4D"):
                 st["kwg"] = {}
                 st["kwm"] = {}
                 if dim < 3:
                     g = rng.choice(("z", "theta", "eta"))
-                    v = C.value(rng, g)
+                    v = _kwval(rng, g)
                     st["kwg"][g] = v
                     st["kwm"][_spell(rng, g)] = v
                 if dim < 4 and name == "to_Vector4D":
                     g = rng.choice(("t", "tau"))
-                    v = C.value(rng, g)
+                    v = _kwval(rng, g)
                     st["kwg"][g] = v
                     st["kwm"][_spell(rng, g)] = v
             steps.append(st)
@@ -140,7 +155,7 @@ def gen_case(seed, tier="quick"):
         if cand:
             flts.append({"i": rng.choice(cand), "seam": "lib", "n": rng.choice((1, 2, 3)), "exc": "MemoryError"})
     return {"kind": "twin14", "seed": seed, "be": be, "sys": list(sys_), "gnames": gnames, "mnames": mnames, "shape": shape,
-            "cols": cols, "steps": steps, "faults": flts, "how": rng.choice(("a", "b", "c"))}
+            "cols": cols, "steps": steps, "faults": flts, "how": rng.choice(("a", "b", "c")), "record": as_record}
 
 
 # --------------------------------------------------------------------------- construction
@@ -304,6 +319,8 @@ def run_case(case, vector):
     if not _both(-1, st0, rG, rM, viol, be, "construction"):
         return _done(viol, stats, case)
     Gv, Mv = rG[1], rM[1]
+    if case.get("record"):
+        Gv, Mv = Gv[0], Mv[0]   # a vector *record* behaves like the equivalent vector
     plan = {}
     for f in case.get("faults", ()):
         plan.setdefault(f["i"], {})[f["seam"]] = (f["n"], f["exc"])
@@ -353,7 +370,21 @@ def run_case(case, vector):
                     viol.append(_viol("to-synonym-differs", i, st, f"{m}({kwm}): {_short(rm[1])} vs {g}({kwg}): {_short(rmg[1])}", be))
         elif s == "op":
             name = st["name"]
-            if name in ("add", "subtract", "dot", "deltaphi", "equal", "isclose"):
+            if name.startswith(("py:", "np:")):
+                import operator as _op
+
+                kind_, fn_ = name.split(":")
+                f_ = getattr(_op, fn_) if kind_ == "py" else getattr(numpy, fn_)
+                if fn_ in ("abs", "neg", "absolute", "square", "sqrt", "cbrt", "negative"):
+                    fg = lambda: f_(Gv)  # noqa: E731
+                    fm = lambda: f_(Mv)  # noqa: E731
+                elif fn_ in ("pow", "power", "mul", "truediv"):
+                    fg = lambda: f_(Gv, st["arg"])  # noqa: E731
+                    fm = lambda: f_(Mv, st["arg"])  # noqa: E731
+                else:
+                    fg = lambda: f_(Gv, Gv)  # noqa: E731
+                    fm = lambda: f_(Mv, Mv)  # noqa: E731
+            elif name in ("add", "subtract", "dot", "deltaphi", "equal", "isclose"):
                 fg = lambda: getattr(Gv, name)(Gv)  # noqa: E731
                 fm = lambda: getattr(Mv, name)(Mv)  # noqa: E731
             elif name in ("scale", "rotateZ"):
